@@ -449,6 +449,79 @@ func main() {
 				}
 			}
 		})
+
+		// E1 closes the induction for a validator that looks at one byte at a time. A validator
+		// may also take wider steps over what one Read delivered (word- or block-wise ASCII
+		// skipping); those are exercised here: u + 'a'*L + v for every pair of sequences u, v
+		// (valid, truncated, orphan continuation), every run length up to 33 (covers 8-, 16-
+		// and 32-byte blocks and one byte either side), shifted by 0..8 leading ASCII bytes, under
+		// several caller buffer sizes and transport chunkings. The verdict is utf8.Valid of the
+		// whole payload, whatever the chunking.
+		r.Part("E5-ascii-runs-and-block-widths", func(t *explore.T) {
+			ends := [][]byte{{}, {0xC3, 0xA9}, {0xE2, 0x82, 0xAC}, {0xF0, 0x9F, 0x98, 0x80}, {0xC3}, {0xE2}, {0xE2, 0x82}, {0xF0, 0x9F}, {0xF0, 0x9F, 0x98}, {0x80}, {0xAC}, {0x82, 0xAC}, {0x98, 0x80}, {0xFF}}
+			maxRun, maxShift := 33, 8
+			t.Par(len(ends)*len(ends), func(i int) {
+				u, v := ends[i/len(ends)], ends[i%len(ends)]
+				for shift := 0; shift <= maxShift; shift++ {
+					for run := 0; run <= maxRun; run++ {
+						t.DoN(15, func() string { return fmt.Sprintf("payload a*%d %x a*%d %x", shift, u, run, v) }, func() *explore.Fail {
+							var s []byte
+							for k := 0; k < shift; k++ {
+								s = append(s, 'a')
+							}
+							s = append(s, u...)
+							for k := 0; k < run; k++ {
+								s = append(s, byte('b'+k%20))
+							}
+							s = append(s, v...)
+							want := utf8.Valid(s)
+							for _, bufsz := range []int{1, 3, 8, 9, 64} {
+								for _, chunk := range []int{0, 1, 8} {
+									src := env.NewSrc(s)
+									src.Policy = env.FixedChunk(chunk)
+									ur := wsutil.NewUTF8Reader(src)
+									buf := make([]byte, bufsz)
+									var err error
+									total := 0
+									for {
+										var n int
+										n, err = ur.Read(buf)
+										total += n
+										if err != nil {
+											break
+										}
+									}
+									if got := err == io.EOF && ur.Valid(); got != want {
+										return explore.Failf("verdict-depends-on-block-width", "payload %x buffer=%d chunk=%d: err=%v Valid=%v want valid=%v", s, bufsz, chunk, err, ur.Valid(), want)
+									}
+									if err == io.EOF && total != len(s) {
+										return explore.Failf("bytes-lost", "read %d of %d", total, len(s))
+									}
+								}
+							}
+							// the same payload as one text frame through the message readers
+							f := streams.Frame{H: refmodel.Hdr{Fin: true, Op: 1}, Payload: s}
+							data, _ := streams.Wire([]streams.Frame{f})
+							for _, d := range []drivers.Driver{drivers.ReadMessageLoop(), drivers.ReaderLoop(512)} {
+								var res drivers.Result
+								d.Run(env.NewSrc(data), streams.Client, drivers.Cfg{CheckUTF8: true}, &res)
+								delivered := false
+								for _, e := range res.Events {
+									if e.Kind == "msg" {
+										delivered = true
+									}
+								}
+								if delivered != want || (res.Err == wsutil.ErrInvalidUTF8) == want {
+									return explore.Failf("message-verdict-depends-on-block-width:"+d.Name, "payload %x: delivered=%v err=%v want valid=%v", s, delivered, res.Err, want)
+								}
+							}
+							t.Outcome(fmt.Sprintf("valid=%v", want))
+							return nil
+						})
+					}
+				}
+			})
+		})
 	})
 }
 
